@@ -574,9 +574,17 @@ Theorem gen_clear_sort_reverse : forall (w : world) (reverse : bool),
 Proof. intros w reverse. exact (conj (gen_clear_l w) (conj (gen_sort_l w reverse) (gen_reverse_l w))). Qed.
 Print Assumptions gen_clear_sort_reverse.
 
+(* the normal form Taxon.lower_cased_label caches for a member (read off Taxon._get_lower_cased_label)
+   is the one _lookup_label applies to the query (str.lower): the equalities below need this *)
+Theorem gen_member_normal_form : forall (lower casefold : lbl -> lbl) (w : world) (t : tid),
+  member_normal_form = SLower
+  /\ py_Taxon_lower_cased_label lower casefold w (VTaxon t) = Ok (VLabel (lower (label_of w t))).
+Proof. intros lower casefold w t. split; reflexivity. Qed.
+Print Assumptions gen_member_normal_form.
+
 Theorem gen_lookup_label :
-  forall (lower : lbl -> lbl) (w : world) (l : lbl) (cs : option bool) (first err : bool),
-  py__lookup_label lower w (VLabel l) (match cs with None => VNone | Some b => VBool b end) (VBool first) (VBool err)
+  forall (lower casefold : lbl -> lbl) (w : world) (l : lbl) (cs : option bool) (first err : bool),
+  py__lookup_label lower casefold w (VLabel l) (match cs with None => VNone | Some b => VBool b end) (VBool first) (VBool err)
   = match lookup_all lower w l cs with
     | [] => if err then Err LookupErr else Ok VNone
     | t :: r => if first then Ok (VTaxon t) else Ok (VList (map VTaxon (t :: r)))
@@ -584,27 +592,27 @@ Theorem gen_lookup_label :
 Proof. exact gen_lookup_label_l. Qed.
 Print Assumptions gen_lookup_label.
 
-Theorem gen_lookups : forall (lower : lbl -> lbl) (w : world) (l : lbl) (ls : list lbl) (cs : option bool) (first : bool),
+Theorem gen_lookups : forall (lower casefold : lbl -> lbl) (w : world) (l : lbl) (ls : list lbl) (cs : option bool) (first : bool),
   let c := match cs with None => VNone | Some b => VBool b end in
-  py_findall lower w (VLabel l) c = Ok (VList (map VTaxon (lookup_all lower w l cs)))
-  /\ py_get_taxon lower w (VLabel l) c
+  py_findall lower casefold w (VLabel l) c = Ok (VList (map VTaxon (lookup_all lower w l cs)))
+  /\ py_get_taxon lower casefold w (VLabel l) c
      = Ok (match lookup_first lower w l cs with Some t => VTaxon t | None => VNone end)
-  /\ py_has_taxon_label lower w (VLabel l) c
+  /\ py_has_taxon_label lower casefold w (VLabel l) c
      = Ok (VBool (match lookup_first lower w l cs with Some _ => true | None => false end))
-  /\ py_has_taxa_labels lower w (VList (map VLabel ls)) c
+  /\ py_has_taxa_labels lower casefold w (VList (map VLabel ls)) c
      = Ok (VBool (forallb (fun l => match lookup_all lower w l cs with [] => false | _ => true end) ls))
-  /\ py_get_taxa lower w (VList (map VLabel ls)) c (VBool first)
+  /\ py_get_taxa lower casefold w (VList (map VLabel ls)) c (VBool first)
      = Ok (VList (map VTaxon (get_taxa lower w ls cs first []))).
 Proof.
-  intros lower w l ls cs first c.
-  exact (conj (gen_findall_l lower w l cs) (conj (gen_get_taxon_l lower w l cs)
-        (conj (gen_has_taxon_label_l lower w l cs) (conj (gen_has_taxa_labels_l lower w ls cs)
-        (gen_get_taxa_l lower w ls cs first))))).
+  intros lower casefold w l ls cs first c.
+  exact (conj (gen_findall_l lower casefold w l cs) (conj (gen_get_taxon_l lower casefold w l cs)
+        (conj (gen_has_taxon_label_l lower casefold w l cs) (conj (gen_has_taxa_labels_l lower casefold w ls cs)
+        (gen_get_taxa_l lower casefold w ls cs first))))).
 Qed.
 Print Assumptions gen_lookups.
 
-Theorem gen_require_taxon : forall (lower : lbl -> lbl) (w : world) (l : lbl) (cs : option bool),
-  py_require_taxon lower w (VLabel l) (match cs with None => VNone | Some b => VBool b end)
+Theorem gen_require_taxon : forall (lower casefold : lbl -> lbl) (w : world) (l : lbl) (cs : option bool),
+  py_require_taxon lower casefold w (VLabel l) (match cs with None => VNone | Some b => VBool b end)
   = match lookup_first lower w l cs with
     | Some t => Ok (w, VTaxon t)
     | None => if negb (is_mut (w_ns w)) then Err TypeErr
@@ -615,7 +623,7 @@ Proof. exact gen_require_taxon_l. Qed.
 Print Assumptions gen_require_taxon.
 
 Theorem gen_remove_discard_label :
-  forall (lower : lbl -> lbl) (w : world) (l : lbl) (cs : option bool) (first : bool),
+  forall (lower casefold : lbl -> lbl) (w : world) (l : lbl) (cs : option bool) (first : bool),
   let c := match cs with None => VNone | Some b => VBool b end in
   let removal := fun strict : bool =>
     match lookup_all lower w l cs with
@@ -623,15 +631,15 @@ Theorem gen_remove_discard_label :
     | t :: r => match remove_each (w_ns w) (if first then [t] else t :: r) with
                 | Ok n => Ok (set_ns w n, VNone) | Err e => Err e | OutOfFuel => OutOfFuel end
     end in
-  py_remove_taxon_label lower w (VLabel l) c (VBool first) = removal true
-  /\ py_discard_taxon_label lower w (VLabel l) c (VBool first) = removal false.
+  py_remove_taxon_label lower casefold w (VLabel l) c (VBool first) = removal true
+  /\ py_discard_taxon_label lower casefold w (VLabel l) c (VBool first) = removal false.
 Proof.
-  intros lower w l cs first c removal.
-  exact (conj (gen_remove_taxon_label_l lower w l cs first) (gen_discard_taxon_label_l lower w l cs first)).
+  intros lower casefold w l cs first c removal.
+  exact (conj (gen_remove_taxon_label_l lower casefold w l cs first) (gen_discard_taxon_label_l lower casefold w l cs first)).
 Qed.
 Print Assumptions gen_remove_discard_label.
 
-Theorem gen_bitmasks : forall (lower : lbl -> lbl) (w : world) (t : tid) (ts : list tid) (ls : list lbl)
+Theorem gen_bitmasks : forall (lower casefold : lbl -> lbl) (w : world) (t : tid) (ts : list tid) (ls : list lbl)
                               (cs : option bool) (first : bool),
   (forall t i, alookup t (acc (w_ns w)) = Some i -> 0 <= i) -> 0 <= count (w_ns w) ->
   py_all_taxa_bitmask w = Ok (VInt (all_taxa_bitmask (w_ns w)))
@@ -640,20 +648,20 @@ Theorem gen_bitmasks : forall (lower : lbl -> lbl) (w : world) (t : tid) (ts : l
        | Ok (n, m) => Ok (set_ns w n, VInt m) | Err e => Err e | OutOfFuel => OutOfFuel end
   /\ py_accession_index w (VTaxon t)
      = match alookup t (acc (w_ns w)) with Some i => Ok (VInt i) | None => Err KeyErr end
-  /\ py_taxa_bitmask lower w (VKw [("taxa"%string, VList (map VTaxon ts))])
+  /\ py_taxa_bitmask lower casefold w (VKw [("taxa"%string, VList (map VTaxon ts))])
      = match taxa_bitmask (w_ns w) ts 0 with
        | Ok (n, m) => Ok (set_ns w n, VInt m) | Err e => Err e | OutOfFuel => OutOfFuel end
-  /\ py_taxa_bitmask lower w (VKw [("labels"%string, VList (map VLabel ls));
+  /\ py_taxa_bitmask lower casefold w (VKw [("labels"%string, VList (map VLabel ls));
                                     ("is_case_sensitive"%string, match cs with None => VNone | Some b => VBool b end);
                                     ("first_match_only"%string, VBool first)])
      = match taxa_bitmask (w_ns w) (get_taxa lower w ls cs first []) 0 with
        | Ok (n, m) => Ok (set_ns w n, VInt m) | Err e => Err e | OutOfFuel => OutOfFuel end
-  /\ (forall lsv v, py_taxa_bitmask lower w (VKw [("labels"%string, lsv); ("is_rooted"%string, v)]) = Err TypeErr).
+  /\ (forall lsv v, py_taxa_bitmask lower casefold w (VKw [("labels"%string, lsv); ("is_rooted"%string, v)]) = Err TypeErr).
 Proof.
-  intros lower w t ts ls cs first Hn Hc.
+  intros lower casefold w t ts ls cs first Hn Hc.
   exact (conj (gen_all_taxa_bitmask_l w Hc) (conj (gen_taxon_bitmask_l w t Hn) (conj (gen_accession_index_l w t)
-        (conj (gen_taxa_bitmask_taxa_l lower w ts Hn) (conj (gen_taxa_bitmask_labels_l lower w ls cs first Hn)
-        (gen_taxa_bitmask_unexpected_keyword_l lower w)))))).
+        (conj (gen_taxa_bitmask_taxa_l lower casefold w ts Hn) (conj (gen_taxa_bitmask_labels_l lower casefold w ls cs first Hn)
+        (gen_taxa_bitmask_unexpected_keyword_l lower casefold w)))))).
 Qed.
 Print Assumptions gen_bitmasks.
 
@@ -696,13 +704,13 @@ Print Assumptions gen_bitprocessing.
 
 (* the operation-level model assembled from generated functions only (gen_step, Proofs/C10GenStep.v)
    is `step`; so every theorem above about step / run / run_world is a theorem about the generated code *)
-Theorem gen_step_eq : forall (lower : lbl -> lbl) (w : world) (o : op),
+Theorem gen_step_eq : forall (lower casefold : lbl -> lbl) (w : world) (o : op),
   (forall t i, alookup t (acc (w_ns w)) = Some i -> 0 <= i) -> 0 <= count (w_ns w) ->
-  gen_step lower w o = step lower w o.
+  gen_step lower casefold w o = step lower w o.
 Proof. exact gen_step_eq_l. Qed.
 Print Assumptions gen_step_eq.
 
-Theorem gen_run_eq : forall (lower : lbl -> lbl) (w : world) (ops : list op),
-  Inv (w_ns w) -> gen_run lower w ops = run lower w ops.
+Theorem gen_run_eq : forall (lower casefold : lbl -> lbl) (w : world) (ops : list op),
+  Inv (w_ns w) -> gen_run lower casefold w ops = run lower w ops.
 Proof. exact gen_run_eq_l. Qed.
 Print Assumptions gen_run_eq.
